@@ -174,6 +174,9 @@ func (rn *runner) GenOp(r *vh.Rand, i int) string {
 		rn.sinited = true
 		return fmt.Sprintf("sinit %d %d", r.Intn(3), 1+r.Intn(2))
 	}
+	if r.Chance(4) {
+		return fmt.Sprintf("retry %d %s %s", 1+r.Intn(2), hx(r.Bytes(r.Intn(21))), hx(r.Bytes(1+r.Intn(60))))
+	}
 	switch r.Pick(22, 22, 28, 28) {
 	case 0: // long seal
 		dir := r.Intn(2)
@@ -303,6 +306,9 @@ func (rn *runner) Exec(op string) string {
 		return rn.linit(n(1), unhx(s(2)))
 	case "sinit":
 		return rn.sinit(int(n(1)), n(2))
+	case "retry":
+		tag := handshake.GetRetryIntegrityTag(unhx(s(3)), protocol.ParseConnectionID(unhx(s(2))), verOf(n(1)))
+		return hx(tag[:])
 	case "lseal":
 		rn.ensureL()
 		id, dir := int(n(1)), int(n(2))&1
